@@ -372,3 +372,57 @@ func verifH_C01_null() {
 	verifAssert(verifVisit(only, nil, 0) == nil, "C01 null: a nullable schema without other keywords accepts null")
 	verifReach("end")
 }
+
+//verif:harness id=C01 tier=quick,thorough witness=end bounds="null inside containers (one-directional, as the property states null): arrays of 1-2 items and objects with 1-2 members where one element is null and the other any float64 / ASCII string; items / property / additionalProperties schema in {number+minimum, string+maxLength, integer, nullable number, {}}; uniqueItems symbolic; accepted => the element's schema is nullable (or there is no schema for it)"
+func verifH_C01_null_elements() {
+	elem := func() (*Schema, bool) {
+		switch verifChoose("elem", 5) {
+		case 0:
+			m := verifFiniteFloat("emin")
+			return &Schema{Type: &Types{"number"}, Min: &m}, false
+		case 1:
+			m := verifNondetUint64("emaxLen")
+			return &Schema{Type: &Types{"string"}, MaxLength: &m}, false
+		case 2:
+			return &Schema{Type: &Types{"integer"}}, false
+		case 3:
+			return &Schema{Type: &Types{"number"}, Nullable: true}, true
+		}
+		return &Schema{}, false // the library's reading: an empty schema is not nullable
+	}
+	es, nullable := elem()
+	other := func() any {
+		if verifChoose("other", 2) == 0 {
+			return verifFiniteFloat("o")
+		}
+		return verifASCII("os", 1)
+	}
+	var s *Schema
+	var v any
+	switch verifChoose("container", 4) {
+	case 0: // items
+		s = &Schema{Type: &Types{"array"}, Items: &SchemaRef{Value: es}, UniqueItems: verifNondetBool("unique")}
+		if verifChoose("n", 2) == 0 {
+			v = []any{nil}
+		} else if verifChoose("first", 2) == 0 {
+			v = []any{nil, other()}
+		} else {
+			v = []any{other(), nil}
+		}
+	case 1: // declared property
+		s = &Schema{Type: &Types{"object"}, Properties: Schemas{"p": {Value: es}}}
+		v = map[string]any{"p": nil}
+	case 2: // additionalProperties schema
+		s = &Schema{Type: &Types{"object"}}
+		s.AdditionalProperties.Schema = &SchemaRef{Value: es}
+		v = map[string]any{"k": nil}
+	case 3: // below a composition
+		s = &Schema{AllOf: SchemaRefs{{Value: &Schema{Type: &Types{"array"}, Items: &SchemaRef{Value: es}}}}}
+		v = []any{nil}
+	}
+	err := verifVisit(s, v, 0)
+	if err == nil {
+		verifAssert(nullable, "C01 null element: a null element is accepted only if its schema is nullable")
+	}
+	verifReach("end")
+}
